@@ -43,6 +43,20 @@ def words(n):
     return out
 
 
+def reset_words():
+    out = []
+    tails = [[], ["connect", "op-ok", "disconnect"], ["enter", "op-ok", "leave"], ["connect"], ["enter"],
+             ["enter", "op-reset", "leave", "connect", "op-ok", "disconnect"], ["connect", "op-raises", "disconnect", "disconnect"]]
+    for head, closes in ((["connect"], ["disconnect"]), (["enter"], ["leave", "body-raises", "disconnect"]),
+                         (["connect", "op-ok"], ["disconnect"]), (["enter", "op-ok", "op-ok"], ["leave"]),
+                         (["refused", "connect"], ["disconnect"]), (["connect", "disconnect", "enter"], ["leave"])):
+        out.append(head + ["op-reset"])
+        for c in closes:
+            for t in tails:
+                out.append(head + ["op-reset", c] + t)
+    return out
+
+
 class C18(Prop):
     id = "C18"
     title = "the TCP client is connected exactly between connect and disconnect"
@@ -72,6 +86,15 @@ class C18(Prop):
             for w in allw:
                 k += 1
                 out.append({"api": api, "mode": "virtual", "word": w, "seed": k})
+        # the device resets the session in the middle of an operation (virtual: connection_lost(ConnectionResetError);
+        # loopback: SO_LINGER 0 + close = a real RST)
+        rs = reset_words()
+        for api in (1, 2):
+            for w in rs:
+                k += 1
+                out.append({"api": api, "mode": "virtual", "word": w, "seed": k})
+        for n, w in enumerate(ctx.pick(rs[::3], rs)):
+            out.append({"api": 1 + n % 2, "mode": "loopback", "word": w, "seed": 200000 + n})
         sample = ctx.rng.sample(allw, min(len(allw), ctx.pick(120, 1500)))
         for n, w in enumerate(sample):
             out.append({"api": 1 + n % 2, "mode": "loopback", "word": w, "seed": 100000 + n})
